@@ -10,6 +10,18 @@ import re
 _AGG = re.compile(r"ret=\d+\[")
 
 
+def _has_sv(words):
+    """does the attribute part of an op line contain the word `s` (the library's own stackValue)?"""
+    i = 0
+    step = {"l": 5, "g": 3, "v": 1, "k": 3, "e": 1}
+    while i < len(words):
+        if words[i] == "s":
+            return True
+        i += step.get(words[i], 1)
+    return False
+
+
+
 def _tag(line, out):
     w = line.split(" ", 2)
     if w[0] == "logx":
@@ -22,12 +34,17 @@ def _tag(line, out):
         return "sink-error-returned"
     if "ret=panic" in out:
         return "sink-panic"
+    if _has_sv(line.split()[4 if w[0] == "logerr" else 8:]):
+        return "record-with-real-stackValue"
     if "0a3c3c535441434b3e3e0a" in out or " k " in line:
         return "record-with-stack-carrier"
     return "plain"
 
 
 RACE_ENV = {"GORACE": "halt_on_error=1"}
+
+# white-box accessor: the library's own `*stackValue` over a scripted errs.StackError (attribute word `s`)
+OVERLAY = {"errs/c13_stackvalue_verif.go": "c13_stackvalue.go"}
 
 
 def sched(ctx, n, name="race"):
@@ -80,6 +97,92 @@ def sched(ctx, n, name="race"):
         print("replay: %d of %d runs of the script gave an outcome the protocol does not allow" % (bad, len(lines)))
 
 
+def facts(ctx, limit=300):
+    """Constants tie: lean/Generated/C13Facts.lean is deleted and regenerated from the Go source of the working tree
+    (vlib/c13facts.py), Props/C13Facts.lean decides in the kernel that the constants of the models are those."""
+    import fcntl
+    import os
+    import signal
+    import subprocess
+    from vlib import c13facts, core
+    module = "Props.C13Facts"
+    props_path = os.path.join(core.LEAN, "Props", "C13Facts.lean")
+    names = core.theorem_names(props_path)
+
+    def fail_all():
+        for q in names:
+            ctx.theorems.append({"name": q, "axioms": None, "ok": False})
+
+    os.makedirs(os.path.join(core.VERIF, ".work"), exist_ok=True)
+    with open(os.path.join(core.VERIF, ".work", "c13facts.lock"), "w") as lk:
+        fcntl.flock(lk, fcntl.LOCK_EX)
+        try:
+            ctx.checker_cmds.append("python3 -m vlib.c13facts <repo>   (regenerate lean/Generated/C13Facts.lean from "
+                                    "tracelog.go, errs/log.go, errs/recovery.go of the working tree)")
+            try:
+                _, found = c13facts.write(ctx.repo)
+            except Exception as e:  # noqa: BLE001 - anything here is a broken extractor, not a finding about the code
+                ctx.lean_problems.append("c13facts could not read the working tree: %r" % (e,))
+                fail_all()
+                return
+            ctx.extra["c13facts_found"] = sorted(k for k, v in found.items() if v)
+            ctx.extra["c13facts_not_found"] = sorted(k for k, v in found.items() if not v)
+            ctx.rules.append("constants tie: %d of %d constants/tables of tracelog.go, errs/log.go, errs/recovery.go found by "
+                             "their textual pattern in the working tree (%s not found: the statements about them are "
+                             "vacuous); Props.C13Facts decides that the models use exactly these"
+                             % (len(ctx.extra["c13facts_found"]), len(found), ", ".join(ctx.extra["c13facts_not_found"]) or "none"))
+            cmd = ["lake", "build", module]
+            ctx.checker_cmds.append("cd lean && " + " ".join(cmd))
+            with open(os.path.join(core.VERIF, ".work", "lean.lock"), "w") as ll:
+                fcntl.flock(ll, fcntl.LOCK_EX)
+                pr = subprocess.Popen(cmd, cwd=core.LEAN, stdout=subprocess.PIPE, stderr=subprocess.STDOUT, text=True,
+                                      errors="replace", start_new_session=True)
+                try:
+                    bout, _ = pr.communicate(timeout=limit)
+                    rc = pr.returncode
+                except subprocess.TimeoutExpired:
+                    try:
+                        os.killpg(pr.pid, signal.SIGKILL)
+                    except OSError:
+                        pass
+                    bout, _ = pr.communicate()
+                    rc = None
+                if rc != 0:
+                    fail_all()
+                    errs = [ln for ln in bout.splitlines() if "error" in ln]
+                    msg = ("constants tie: the constants regenerated from the Go source no longer agree with the models "
+                           "(Props.C13Facts does not check): " + " ;; ".join(errs[:4])[:600])
+                    ctx.lean_problems.append(msg)
+                    print("# " + msg[:900])
+                    return
+                audit = os.path.join(core.LEAN, "Audit", "C13Facts.lean")
+                os.makedirs(os.path.dirname(audit), exist_ok=True)
+                with open(audit, "w") as f:
+                    f.write("import %s\n" % module)
+                    for q in names:
+                        f.write("#print axioms %s\n" % q)
+                ctx.checker_cmds.append("cd lean && lake env lean Audit/C13Facts.lean   (#print axioms on every theorem)")
+                _, out2 = core.sh(["lake", "env", "lean", "Audit/C13Facts.lean"], cwd=core.LEAN, timeout=1800)
+            ax = core.parse_axioms(out2)
+            for q in names:
+                if q in ax:
+                    bad = [a for a in ax[q] if a not in core.ALLOWED_AXIOMS]
+                    ctx.theorems.append({"name": q, "axioms": ax[q], "ok": not bad})
+                    if bad:
+                        ctx.lean_problems.append("theorem %s depends on axioms %s" % (q, bad))
+                else:
+                    ctx.theorems.append({"name": q, "axioms": None, "ok": False})
+                    ctx.lean_problems.append("theorem %s does not check (no axiom report)" % q)
+            prev_files = ctx.extra.get("lean_files_scanned", [])
+            prev_hits = ctx.extra.get("forbidden_token_hits", [])
+            ctx._scan_forbidden([module])
+            ctx.extra["lean_files_scanned"] = sorted(set(prev_files) | set(ctx.extra.get("lean_files_scanned", [])))
+            ctx.extra["forbidden_token_hits"] = sorted(set(prev_hits) | set(ctx.extra.get("forbidden_token_hits", [])))
+        finally:
+            if ctx.repo != "/repo" and os.path.isdir("/repo/errs"):
+                c13facts.write("/repo")   # leave the tracked file as generated from the reference tree
+
+
 def run(ctx):
     ctx.modelled += [
         "leaf rendering (strconv.Quote, time RFC3339Nano, slog.Value.String, LogValuer resolution) and the record's time "
@@ -119,7 +222,8 @@ def run(ctx):
     ctx.lean(props=["Props.C13"], drivers=["drv_c13"])
     from vlib import lockfacts
     lockfacts.run(ctx, "tracelog", "Props.C13Lock", "C13Lock")   # lock discipline decided about tables regenerated from the Go source
-    ctx.harness("./cmd/c13")
+    facts(ctx)                                                   # constants of the models decided to be those of the Go source
+    ctx.harness("./cmd/c13", overlay=OVERLAY)
     ctx.diff(area="log", driver="drv_c13", n={"quick": 40000, "thorough": 600000}, stateful=True,
              trivial=lambda l, o: l.split(" ", 1)[0] in ("new", "mnew", "mode", "hold", "wg", "wa", "setlevel"),
              tagger=_tag, timeout=1500,
@@ -129,7 +233,10 @@ def run(ctx):
     ctx.impl_oracle("recovery", {"quick": 48, "thorough": 480}, timeout=300,
                     label="errs.Recovery on its own: no panic escapes, the handler is called once with an error that leads "
                           "back to the panic value, for every kind of panic value and handler")
-    if ctx.harness("./cmd/c13", name="race", race=True):
+    ctx.diff(area="rec", driver="drv_c13", n={"quick": 88, "thorough": 880}, stateful=False, timeout=300,
+             theorem="C13.recovery_contains_every_panic / recovery_calls_handler_once / recovery_keeps_panic_value "
+                     "(Rec.recovery, the model of errs/recovery.go); impl != model on this call")
+    if ctx.harness("./cmd/c13", name="race", race=True, overlay=OVERLAY):
         sched(ctx, {"quick": 1500, "thorough": 12000})
         ctx.impl_oracle("stress", {"quick": 40, "thorough": 600}, name="race", timeout=1500,
                         label="schedules: whole-record writes, per-goroutine order, sink error to its caller, "
